@@ -54,8 +54,8 @@ def gen_text(rng, names):
 
 def seg_text(rng, names):
     """A text inside the theorem's domain: literal segments without '$', references followed by a non-word char."""
-    seps = [" ", ", ", "+", ")", " = ", "\n", "'", ".", ";"]
-    heads = ["select ", "", "x", "(", "1 ", "'"]
+    seps = [" ", ", ", "+", ")", " = ", "\n", "'", ".", ";", " || 'x$y' || ", " /* $c */ ", ' "q$r" ', " 'it''s $a' ", " $$raw $b$$ ", " -- $zz\n "]
+    heads = ["select ", "", "x", "(", "1 ", "'", "select 'a $b', "]
     out = rng.choice(heads)
     refs = []
     for _ in range(rng.randint(1, 5)):
@@ -105,25 +105,40 @@ def check_unit(ck: Check):
     # independent oracle on the theorem's domain: one-pass expansion in Python
     reported = False
     nontrivial = set()
+    # (its own lexer, a regex alternation - not the code's character loop: complete literals, quoted identifiers, $$ strings, comments)
+    prot = re.compile(r"""('(?:[^'\\]|\\.|'')*'|"(?:[^"]|"")*"|\$\$.*?\$\$|--[^\n]*|/\*.*?\*/)""", re.S)
     for (pairs, text), o in zip(cases, obs):
         d = dict(pairs)
-        toks = re.split(r"(\$\w+)", text)
-        in_dom = all("$" not in v and "\\" not in v for v in d.values()) and \
-            all(("$" not in t) if i % 2 == 0 else True for i, t in enumerate(toks)) and \
-            all(toks[i + 1] != "" or i + 2 >= len(toks) for i in range(1, len(toks), 2) if i + 1 < len(toks))
+        pieces = prot.split(text)           # even = SQL text proper, odd = protected
+        plain = pieces[0::2]
+        well_formed = not any(re.search(r"""['"]|--|/\*|\$\$""", p_) for p_ in plain)
+        in_dom = well_formed and all("$" not in v and "\\" not in v for v in d.values())
+        for p_ in plain:
+            toks = re.split(r"(\$\w+)", p_)
+            in_dom = in_dom and all(("$" not in t) if i % 2 == 0 else True for i, t in enumerate(toks)) and \
+                all(toks[i + 1] != "" or i + 2 >= len(toks) for i in range(1, len(toks), 2) if i + 1 < len(toks))
         if not in_dom:
             ck.count("unit:outside-theorem-domain")
             continue
         ck.count("unit:inside-theorem-domain")
+        if len(pieces) > 1:
+            ck.count("unit:inside-domain-with-protected-pieces")
         exp, err = "", None
-        for i, t in enumerate(toks):
-            if i % 2 == 0:
-                exp += t
-            elif t[1:].upper() in d:
-                exp += d[t[1:].upper()]
-            else:
-                err = err or t.upper()
-                exp += t
+        toks = []
+        for j, p_ in enumerate(pieces):
+            if j % 2:
+                exp += p_               # protected: character for character
+                continue
+            toks_p = re.split(r"(\$\w+)", p_)
+            toks += toks_p
+            for i, t in enumerate(toks_p):
+                if i % 2 == 0:
+                    exp += t
+                elif t[1:].upper() in d:
+                    exp += d[t[1:].upper()]
+                else:
+                    err = err or t.upper()
+                    exp += t
         want = [1, S(err)] if err else [0, S(exp)]
         if len(toks) >= 5:
             nontrivial.add((tuple(pairs), text))
